@@ -22,7 +22,7 @@ func init() {
 			"D2 right level — L is Config.Get(cfg, name) with cfg the options' UpgradeConfig (or the level/config parameter the caller fills that way) and name the Name of the very package whose base version D was computed from; " +
 			"D3 right base — override: the base is the loop's version key, the candidates are the elements of getVersionsGreater(that key), which sorts and binary-searches with one comparator; relax: the base index is the scan index witnessed by Constraint.MatchVersion on the downward scan of the ascending-sorted version list, or an already level-checked candidate (major stepping), candidates are indices recorded on MatchVersion-false paths or above them; update: the base is the parsed simple requirement or a version witnessed by MatchVersion, and a candidate below the base is skipped (CompareVersions(v, base) < 0 → continue); " +
 			"D4 plumbing — relax.patchVulns patches exactly what Relax returned with ok==true, passing the options' UpgradeConfig; MavenSuggester.Suggest reports VersionTo = the suggestion for the same requirement and level Get(UpgradeConfig, req.Name); packages at level None are skipped before any candidate is considered. " +
-			"Added in round 2: D5 progress — from the start of a round of the override / relax fix-point loop the next round is reachable only through Manifest.PatchRequirement. NOT decided: that the ecosystem orders (semver.NPM / Maven comparators, third-party) are total orders consistent with Difference; the version a requirement resolves to in a universe (resolver behaviour); termination of the override/relax fixpoint loops (depends on resolver results); re-resolution effects.",
+			"Added in round 2: D5 progress — from the start of a round of the override / relax fix-point loop the next round is reachable only through Manifest.PatchRequirement. Added in round 3: D6 Level.Allows, as a boolean function of its tests, equals the level semantics (decision table). NOT decided: that the ecosystem orders (semver.NPM / Maven comparators, third-party) are total orders consistent with Difference; the version a requirement resolves to in a universe (resolver behaviour); termination of the override/relax fixpoint loops (depends on resolver results); re-resolution effects.",
 		Assume: []string{
 			"deps.dev/util/semver: Difference(a,b) classifies the change from a to b; Compare orders versions consistently with it",
 			"slices.SortFunc/BinarySearchFunc contracts",
